@@ -15,9 +15,11 @@ CONSTANTS
   LifoQueue = FALSE
   DrainOnlyAtStop = FALSE
   ErrKeepsPolling = FALSE
+  MaxPerPoll = 0
+  Rewake = FALSE
 SPECIFICATION Spec
 VIEW View
-INVARIANTS C07_Fifo C07_AllAccounted C01_DrainReleases LogInit
+INVARIANTS C07_Fifo C07_AllAccounted C07_QueuedMeansOwed C01_DrainReleases LogInit
 PROPERTIES Steps
 ACTION_CONSTRAINT LogEdge
 CHECK_DEADLOCK FALSE
